@@ -104,6 +104,70 @@ func (l *c16NewerLoader) GetModifiedTime(n string) (int64, error) {
 	return time.Now().Unix() + 86400, nil
 }
 
+// c16MutableLoader: one name whose text and modification time the test changes behind the engine
+type c16MutableLoader struct {
+	name, text string
+	mtime      int64
+}
+
+func (l *c16MutableLoader) Load(n string) (string, error) {
+	if n == l.name {
+		return l.text, nil
+	}
+	return "", fmt.Errorf("%w: %s", twig.ErrTemplateNotFound, n)
+}
+func (l *c16MutableLoader) Exists(n string) bool                    { return n == l.name }
+func (l *c16MutableLoader) GetModifiedTime(n string) (int64, error) { return l.mtime, nil }
+
+// c16CompileAfterChange: the compiled form carries the source the engine would render at that moment -- also when the
+// template was loaded before and its source changed behind the engine since (auto-reload on and a later
+// modification time; the cache switched off; development mode).
+func c16CompileAfterChange(res *Result) {
+	for si, set := range []func(e *twig.Engine){
+		func(e *twig.Engine) { e.SetAutoReload(true) },
+		func(e *twig.Engine) {},
+	} {
+		for li, late := range []func(e *twig.Engine){
+			func(e *twig.Engine) {},
+			func(e *twig.Engine) { e.SetCache(false) },
+			func(e *twig.Engine) { e.SetDevelopmentMode(true); twig.SetDebugLevel(twig.DebugOff) },
+			func(e *twig.Engine) { e.SetAutoReload(true) },
+		} {
+			if si == 1 && li == 0 {
+				continue // cache on, auto-reload off, nothing switched: the cached template rightly stays
+			}
+			ld := &c16MutableLoader{name: "page", text: "first {{ a }}", mtime: 1000}
+			eng := twig.New()
+			eng.RegisterLoader(ld)
+			set(eng)
+			c := Case{"stream": "compile-after-change", "settings": si, "switched afterwards": li}
+			res.Hist["stream:compile-after-change"]++
+			res.Evaluations++
+			if out, err := eng.Render("page", map[string]interface{}{"a": 1}); err != nil || out != "first 1" {
+				res.Notes = append(res.Notes, fmt.Sprintf("compile-after-change: first render gives %q %v", out, err))
+				continue
+			}
+			ld.text, ld.mtime = "second {{ a }}", 2000
+			late(eng)
+			ct, err := eng.CompileTemplate("page")
+			if err != nil {
+				res.add(Finding{Kind: "oracle", Where: "compile-after-change", Case: c, Expected: "a compiled template", Observed: "error: " + err.Error()})
+				continue
+			}
+			now, rerr := eng.Render("page", map[string]interface{}{"a": 1})
+			other := twig.New()
+			lerr := other.RegisterCompiledTemplate(ct)
+			got, gerr := other.Render("page", map[string]interface{}{"a": 1})
+			if rerr != nil || lerr != nil || gerr != nil || got != now || ct.Source != ld.text {
+				res.add(Finding{Kind: "oracle", Where: "compile-after-change", Case: c, Expected: fmt.Sprintf("%q (what the engine renders now; source %q)", now, ld.text),
+					Observed: fmt.Sprintf("%q (compiled source %q; errors %v %v %v)", got, ct.Source, rerr, lerr, gerr),
+					Detail:   "the template was rendered once, its source changed behind the engine, CompileTemplate was called: the compiled form does not render like the source"})
+			}
+		}
+	}
+	twig.SetDebugLevel(twig.DebugOff)
+}
+
 type c16Out struct {
 	out string
 	err bool
@@ -140,6 +204,7 @@ func c16Render(e *twig.Engine, name string, ctxJSON []byte) (o c16Out, pan inter
 //	revisions - one name, several sources of equal length and equal timestamps, compiled and loaded one after
 //	            the other in this process: each must render like its own source
 func runC16(cases string, res *Result) {
+	c16CompileAfterChange(res)
 	twig.SetDebugWriter(io.Discard) // SetDebug(true) on one engine switches the package-wide logger on
 	dir := filepath.Join(filepath.Dir(cases), "files")
 	os.RemoveAll(dir)
